@@ -7,6 +7,7 @@ package main
 
 import (
 	"fmt"
+	"runtime"
 	"sort"
 	"strings"
 
@@ -62,12 +63,14 @@ func describeList(txs []txcache.VerifTx) string {
 func main() {
 	_ = logger.SetLogLevel("*:NONE")
 	r := vk.Start("C26")
-	r.Rule("per case one TxCache (eviction off, generous per-sender limits, 1/4/16 chunks), 1..5 senders, nonces 0..8 with gaps anywhere incl. after nonce 0, 3 gas prices, random AddTx / RemoveTxByHash / NotifyAccountNonce / SelectTransactions(numRequested in {0,1,2,3,5,10,50,200}, batch in {1,2,3,10}); every selection is one oracle evaluation on the quiescent pre-selection snapshot. A selection is non-trivial when some sender has an initial or a middle gap or the request was filled; distinct = multiset of per-sender classes (nonce known, initial gap, possible grace, starts at 0, middle gap, list length bucket) + filled flag. Concurrent phase (conc.go, cases after the sequential ones): 1..6 victim senders with gaps anywhere + 1..3 pacer senders, short lists (copied whole by pass 0) or long lists (15..150 txs, drained over many passes), one SelectTransactions(3..1000, batch 1/2/3/10) runs in its own goroutine and is parked at every pacer transaction it examines (GetNonce of a data.TransactionHandler decorator); while parked, the harness removes the lowest nonces of a random victim through RemoveTxByHash (2/3: exactly everything in front of its first gap); every such selection is one oracle evaluation (<= requested, distinct, pooled at call start, per sender a contiguous run starting right behind the removed prefix, no skipped nonce); non-trivial when at least one removal step happened inside the call")
+	r.Rule("per case one TxCache (eviction off, generous per-sender limits, 1/4/16 chunks), 1..5 senders, nonces 0..8 with gaps anywhere incl. after nonce 0, 3 gas prices, random AddTx / RemoveTxByHash / NotifyAccountNonce / SelectTransactions(numRequested in {0,1,2,3,5,10,50,200}, batch in {1,2,3,10}); every selection is one oracle evaluation on the quiescent pre-selection snapshot. A selection is non-trivial when some sender has an initial or a middle gap or the request was filled; distinct = multiset of per-sender classes (nonce known, initial gap, possible grace, starts at 0, middle gap, list length bucket) + filled flag. Concurrent phase (conc.go, cases after the sequential ones): 1..6 victim senders with gaps anywhere + 1..3 pacer senders, short lists (copied whole by pass 0) or long lists (15..150 txs, drained over many passes), one SelectTransactions(3..1000, batch 1/2/3/10) runs in its own goroutine and is parked at every pacer transaction it examines (GetNonce of a data.TransactionHandler decorator); while parked, the harness removes the lowest nonces of a random victim through RemoveTxByHash (2/3: exactly everything in front of its first gap); every such selection is one oracle evaluation (<= requested, distinct, pooled at call start, per sender a contiguous run starting right behind the removed prefix, no skipped nonce); non-trivial when at least one removal step happened inside the call. Front-removal phase (front.go): 1..5 senders with notified account nonces (mostly = lowest pooled nonce), up to 4 calls per cache; the selection goroutine is parked in its FIRST look at the front transaction of 2/3 of the senders (the look that decides 'initial gap or not'), another goroutine then calls RemoveTxByHash(front) and is given time to reach the list mutex before the selection resumes; oracle as above plus: a sender whose first returned nonce is above its notified account nonce may only contribute one transaction and only in a possible grace period; non-trivial when a front with nonce = account nonce was removed during the initial-gap verification. Free-running phase (storm.go): 2..3 goroutines add/remove score-changing transactions (prices 1..100x, so the sender moves between score chunks) of senders they own while one goroutine runs 1000 selections per cache; each selection is one evaluation (<= requested, distinct, workload transactions only, per sender nonces in order without skipping); non-trivial when an add/remove was in progress at the start or the end of the selection or completed in between")
 	r.Assume("eviction is disabled and per-sender limits are not reached, so a sender's list object (with its notified nonce and failed-selection counter) only disappears when its last transaction is removed or when it is swept; both are observed through the snapshot",
 		"when a request is filled the first pass may not reach every sender: the model keeps the set of possible failed-selection counts",
 		"grace period = exactly the 2nd consecutive selection with an initial gap (repository constants 2..2); sweep after the 3rd",
 		"selection order between senders depends on Go map iteration, so a replay may fill a small request from other senders; recorded details are self-contained",
-		"concurrent phase: the selection goroutine is only ever parked inside the list critical section of a pacer sender, whose transactions are never removed; the remover touches other senders only, so each produced interleaving is admitted by the unchanged code (pre-emption of the selecting goroutine at that point); no oracle reads the clock")
+		"concurrent phase: the selection goroutine is only ever parked inside the list critical section of a pacer sender, whose transactions are never removed; the remover touches other senders only, so each produced interleaving is admitted by the unchanged code (pre-emption of the selecting goroutine at that point); no oracle reads the clock",
+		"front-removal phase: the remover goroutine blocks on the sender's list mutex for as long as the cache holds it, so 'removal before' or 'removal after' the examination of the sender are the only orders the oracle has to admit, and both are admitted; the pause before the selection is resumed only widens the window",
+		"free-running phase: one selection at a time per cache (the cache keeps its copy state in the sender lists) and one mutating goroutine per sender; base transactions are never removed, so sender lists are not re-created")
 	r.MinShapes(60)
 
 	cases := r.N(6000, 250000)
@@ -75,8 +78,19 @@ func main() {
 	prices := []uint64{txkit.MinGasPrice, 2 * txkit.MinGasPrice, 3 * txkit.MinGasPrice}
 
 	concCases := r.N(4000, 120000)
+	frontCases := r.N(3000, 60000)
+	stormCases := r.N(32, 200)
+	driven := cases + concCases + frontCases
 
-	r.Parallel(cases+concCases, func(c *vk.Case) {
+	r.Parallel(driven, func(c *vk.Case) {
+		if c.Idx >= driven {
+			stormCase(r, c) // only reached when a storm case is replayed
+			return
+		}
+		if c.Idx >= cases+concCases {
+			frontCase(r, c) // front.go: the front transaction is removed while the selection takes its first look at it
+			return
+		}
 		if c.Idx >= cases {
 			concCase(r, c) // conc.go: removals between the passes of one running selection
 			return
@@ -369,11 +383,32 @@ func main() {
 		}
 	})
 	if r.ReplayCase < 0 {
+		// storm.go: free-running selections against senders that keep changing their score chunk; few caches at a
+		// time, so that the selecting goroutine and the movers of one cache really run simultaneously
+		workers := runtime.GOMAXPROCS(0) / 4
+		if workers < 1 {
+			workers = 1
+		}
+		r.ParallelW(stormCases, workers, func(c *vk.Case) {
+			idx := driven + c.Idx
+			sc := &vk.Case{Idx: idx, Rng: r.Rng(idx), R: r}
+			if p, v, st := vk.Guard(func() { stormCase(r, sc) }); p {
+				r.Violation(idx, "panic:"+vk.TopFrame(st), fmt.Sprintf("panic in case %d: %v", idx, v), map[string]interface{}{"panic": fmt.Sprint(v), "stack": st})
+			}
+		})
+	}
+	if r.ReplayCase < 0 {
 		if r.Counter("senders_with_gap_right_after_nonce_0") < 50 || r.Counter("grace_period_single_tx_selected") < 20 {
 			r.Inconclusive("the generator did not produce enough gap-after-nonce-0 or grace-period selections")
 		}
 		if r.Counter("conc_removal_steps") < 1000 || r.Counter("conc_gap_prefix_removed_after_examined") < 200 {
 			r.Inconclusive("the concurrent phase removed too few gap prefixes between the passes of a running selection")
+		}
+		if r.Counter("front_removed_at_account_nonce_while_initial_gap_is_verified") < 500 {
+			r.Inconclusive("the front-removal phase removed too few front transactions (nonce = account nonce) during the initial-gap verification of a running selection")
+		}
+		if r.Counter("storm_selections_overlapping_mover_ops") < 5000 || r.Counter("storm_mover_ops") < 100000 {
+			r.Inconclusive("the free-running phase saw too few selections overlapping score-changing adds/removes")
 		}
 	}
 	r.Finish()
